@@ -19,6 +19,8 @@ RULE = ('cases are (law, datetime fields, offset minutes, timespan '
         'negative timespan, or instant before 1970 / after 2038; distinct = '
         'distinct case')
 ASSUMPTIONS = [
+    'the checks run with the process time zone set to UTC+5:30 (TZ '
+    'variable, tzset): the property may not depend on the local zone',
     'Python aware-datetime arithmetic (exact integer microseconds since the '
     'epoch) is the model of instants',
     'timestamp laws use a tolerance of 1 microsecond plus 2 ulp of the float '
@@ -153,7 +155,18 @@ def _d(case):
     return dt_expr(f), {}
 
 
+def _set_zone():
+    """a zone-less host datetime is UTC whatever the zone of the hosting
+    process: run with a local zone far from UTC (no tzdata needed)"""
+    import os
+    import time
+    if os.environ.get('TZ') != 'VRF-5:30':
+        os.environ['TZ'] = 'VRF-5:30'
+        time.tzset()
+
+
 def check_law(run, case):
+    _set_zone()
     law = case['law']
     run.case(case, _nontrivial(case), cls=_cls(case))
     LAWS[law](run, case)
